@@ -11,6 +11,10 @@ from funsor.domains import Real
 
 import funsor.interpretations as FI
 import funsor.interpreter as INTERP
+import funsor.optimizer as OPT
+from funsor.adjoint import forward_backward
+from funsor.interpreter import reinterpret
+from funsor.optimizer import apply_optimizer
 from funsor.adjoint import AdjointTape, adjoint_ops  # noqa: F401
 from funsor.interpretations import DispatchedInterpretation, PrioritizedInterpretation, Memoize
 from funsor.terms import Binary, Funsor, Number, SubstituteInterpretation, Variable, substitute
@@ -117,13 +121,26 @@ def probe_args(k, n):
 
 
 
+MODULES = [FI, OPT]     # where module-level interpretation objects are looked up, in this order
+
+
+def named_obj(name):
+    for m in MODULES:
+        o = getattr(m, name, None)
+        if isinstance(o, FI.Interpretation):
+            return o
+    raise AttributeError(name)
+
+
 def live_names():
-    """id(obj) -> module-level variable name for every Interpretation object in funsor.interpretations."""
+    """id(obj) -> module-level variable name for every Interpretation object in funsor.interpretations
+    and funsor.optimizer."""
     out = {}
-    for name in sorted(vars(FI)):
-        obj = getattr(FI, name)
-        if isinstance(obj, FI.Interpretation) and id(obj) not in out:
-            out[id(obj)] = name
+    for m in MODULES:
+        for name in sorted(vars(m)):
+            obj = getattr(m, name)
+            if isinstance(obj, FI.Interpretation) and id(obj) not in out:
+                out[id(obj)] = name
     return out
 
 
@@ -239,7 +256,7 @@ class RealRun:
         if c == "subst":
             raise ValueError("ctx subst only as (with subst (probe S armed))")
         o = USER_OBJ.get(c)
-        return o if o is not None else getattr(FI, c)
+        return o if o is not None else named_obj(c)
 
     def ex(self, p):
         t = p[0]
@@ -250,6 +267,12 @@ class RealRun:
                 self.viol.append(("base-popped", CANON.stack(BASE), CANON.stack(s)))
         elif t == "probe":
             self.probe(p[1], p[2], p[3])
+        elif t in ("applyopt", "reinterp"):
+            # library entry points that push interpretations internally, called HERE on a lazy term
+            self.probe(p[1], p[2], p[3], via=apply_optimizer if t == "applyopt" else reinterpret)
+        elif t == "fb":
+            self.probe(p[1], False, p[2],
+                       via=lambda x: forward_backward(ops.logaddexp, ops.add, x)[0])
         elif t == "seq":
             for q in p[1]:
                 self.ex(q)
@@ -336,9 +359,13 @@ class RealRun:
         else:
             self.obs.append("?%s=!%d-firings:%s@*" % (k, len(ev), "+".join(n for n, _ in ev)))
 
-    def probe(self, k, armed, tok):
+    def probe(self, k, armed, tok, via=None):
         cls, args = probe_args(k, tok)
         self.keep.append(args)
+        if via is not None:
+            lazy_term = _reflect(cls, *args)       # built without touching the stack
+            self.keep.append(lazy_term)
+            cls, args = via, (lazy_term,)
         before = tuple(STACK)
         del EVENTS[:]
         ARMED[0] = bool(armed)
